@@ -93,7 +93,7 @@ fn run_case(rec: &mut Rec, d: &Value) {
             }
             rec.ev(
                 "styled",
-                json!({"kind": s.kind(), "style": d["style"], "shape_box": rect_json(&shb), "fill_box": rect_json(&fb),
+                json!({"kind": s.kind(), "style": d["style"], "radii": radii_small(&d["shape"]), "shape_box": rect_json(&shb), "fill_box": rect_json(&fb),
                     "stroke_box": rect_json(&sb), "region": rect_json(&env), "F": runs_of(&f), "S": runs_of(&sset), "C": runs_of(&c),
                     "draw": cruns_of(&t.map), "pixels": cruns_of(&tp.map), "trunc": (!done) as i32, "wins": wobs, "pproto": pproto}),
             );
@@ -102,6 +102,15 @@ fn run_case(rec: &mut Rec, d: &Value) {
             rec.note("panicked_cases");
             rec.ev("panic", json!({"msg": p.msg, "loc": p.loc}));
         }
+    }
+}
+
+/// the stored corner radii of a rounded rectangle (for the DRIFT comparison with EGStyledCurve); [] for other shapes
+/// and for radii too large for the specification's 32-bit integers
+fn radii_small(shape: &Value) -> Value {
+    match shape["radii"].as_array() {
+        Some(a) if a.len() == 4 && a.iter().all(|r| r.as_array().map_or(false, |p| p.len() == 2 && p.iter().all(|v| v.as_u64().map_or(false, |u| u < (1 << 20))))) => shape["radii"].clone(),
+        _ => json!([]),
     }
 }
 
